@@ -25,10 +25,16 @@ RULE = ('cases: (1) single operations op(L,R) with L a sparse vector/logical vec
         'remove_negatives, clear, index / key / value queries, sparse_equal, shares_data_with, sum_sparse_vectors); get-then-write (views for basic indexing, copies for fancy / boolean indexing); '
         'history steps: logical and in-place logical operators, abs, invert, reflected operators, reductions, clear, row / row-slice selections kept in the pool, logical 2-d pool members; empty operands in reductions and constructions. '
         'non-trivial = result (or target after the call) has at least one non-zero and one zero entry, or a rejection was demanded; '
+        'Oracle audit: dtype kind (logical vs numeric) of every operator result except true division; rejections judged for exception type and unchanged operands; '
+        'mismatching slice assignment keyed by shorter / longer and also offered to logical vectors; get-then-write refusals only for the documented read-only dense forms. '
         'distinct = hash of the serialised case')
 MIN_NONTRIVIAL = {'quick': 2000, 'thorough': 50000}
 ASSUMPTIONS = ['NumPy is the reference semantics', 'numba disabled as in the repository test configuration',
-               'operations where NumPy itself raises or yields inf/nan are not judged (only the stored-entry invariant applies)']
+               'operations where NumPy itself raises or yields inf/nan are not judged (only the stored-entry invariant applies)',
+               'refusals are granted from the inputs only: sa[rowslice, :] = <2-d value with several rows> (IndexError "cannot broadcast 2-d array on to 1-d sparse array") and '
+               'in-place writes to the documented read-only dense selections (column-cutting index forms of an array, a non-open slice of a vector: ndarray, writeable False, '
+               'ValueError read-only); every other raise where NumPy computes, including ZeroDivisionError where NumPy is finite, is reported',
+               'a rejection is a ValueError / IndexError that leaves both operands and the stored-entries invariant as before; logical / logical true division keeps the logical kind in the library (values compared, kind not)']
 
 
 def required(tier):
@@ -36,7 +42,12 @@ def required(tier):
             'op:left(1)', 'op:left(1xn)', 'op:vector-with-2d-right', 'op:right-blist', 'op:right-iarr1', 'op:right-npint', 'op:right-npbool', 'reduce:negative-axis', 'empty-operand',
             'method', 'method:mix_from', 'method:copy_like', 'method:sum_of', 'method:queries', 'method:sparse_equal', 'method:sum_sparse_vectors', 'getmut', 'getmut:numpy-view', 'getmut:numpy-copy',
             'construct:shared-rows', 'construct:from_rows', 'construct:sparse(copy=True)', 'construct:to_array(dtype)', 'construct:casts',
-            'history:log', 'history:ilog', 'history:ref', 'history:red', 'history:clear', 'history:get', 'history:abs']
+            'history:log', 'history:ilog', 'history:ref', 'history:red', 'history:clear', 'history:get', 'history:abs',
+            # oracle audit: every get-then-write form that must be judged (a selection that silently became a read-only dense copy would otherwise
+            # only lower a counter), dtype kind of operator results, state after rejections, the relation classes of mismatching assignments
+            'op:dtype-kind', 'op:dtype-kind/bin', 'op:dtype-kind/log', 'reject:state-checked/op', 'reject:state-checked/readonly',
+            'reject:setitem/sv/:/shorter', 'reject:setitem/sv/:/longer', 'reject:setitem/slv/:/shorter', 'reject:setitem/slv/:/longer',
+            'reject:setitem/sv/ilist/longer', 'reject:setitem/sa/:/longer', 'reject:setitem/sa/:/shorter'] + [f'getmut:judged/{k}/{f}' for k, f in GETMUT_JUDGED_FORMS]
 
 # ---------------------------------------------------------------------------
 # building operands from descriptions
@@ -129,12 +140,40 @@ TABLES = {'bin': BIN, 'log': LOG, 'inp': INP, 'ilog': ILOG, 'ref': REF, 'un': UN
 BOOLK = ('bscalar', 'barr1', 'slv', 'barr2', 'sab', 'blist', 'npbool')
 
 
-REFUSALS = ('cannot broadcast', 'cannot set an array element', 'shape mismatch', 'can be at most', 'must use tuple',
-            'too many indices', 'too few indices', 'cannot cast boolean')
+# Literal whitelist of (container kind, index form, value class) triples that the library refuses deliberately although NumPy accepts them, each with the
+# exception type and message of the refusal.  Measured over 3.6e5 generated get / set / get-then-write cases and 6000 histories on the unchanged library:
+# this is the ONLY explicit refusal that occurs (SparseArray.__setitem__ hands the whole 2-d value to every selected row when the row index is a
+# non-open slice and the column index is ':'; the row refuses it before anything is written).  Any other raise where NumPy computes is reported.
+UNSUPPORTED_SET = {('sa', '[slice,:]', '2d-rows>1'): (IndexError, 'cannot broadcast 2-d array on to 1-d sparse array'),
+                   ('sab', '[slice,:]', '2d-rows>1'): (IndexError, 'cannot broadcast 2-d array on to 1-d sparse array')}
 
 
-def explicit_refusal(e):
-    return isinstance(e, (ValueError, IndexError, TypeError, NotImplementedError)) and any(m in str(e) for m in REFUSALS)
+def value_class(dv):
+    """class of an assigned value as the library sees it (reduce_ndim strips leading axes of length 1)."""
+    sh = np.shape(dv)
+    if len(sh) == 2: return '2d-rows>1' if sh[0] > 1 else '2d-1row'
+    return f'{len(sh)}d'
+
+
+def kind_of(x):
+    if isinstance(x, SA): return 'sab' if x.dtype is bool else 'sa'
+    if isinstance(x, SLV): return 'slv'
+    if isinstance(x, SV): return 'sv'
+    return type(x).__name__
+
+
+def documented_set_refusal(kind, ix, dv, e):
+    """True only when the harness itself sees from the inputs that (kind, index form, value class) is a whitelisted unsupported form AND the
+    exception is the documented one (type and message)."""
+    spec = UNSUPPORTED_SET.get((kind, ix_tag(ix), value_class(dv)))
+    return spec is not None and type(e) is spec[0] and spec[1] in str(e)
+
+
+def same_kind(res, ref):
+    """logical results stay logical and numeric results numeric: (dtype is bool) must agree with NumPy."""
+    a = dense(res).dtype == bool
+    b = np.asarray(ref).dtype == bool
+    return a == b, f'result dtype {"bool" if a else "numeric"} vs numpy {np.asarray(ref).dtype}'
 
 
 def same_values(dr, r):
@@ -171,6 +210,8 @@ def run_op(case, rec):
             rec.exception('op', e, what=f'unary {o} on {case["L"]["k"]} raised'); return
         okv, why = same_values(dense(res), ref)
         rec.check(okv, 'op', f'unary/{o}/{case["L"]["k"]}', f'unary {o}: {why}')
+        okk, whyk = same_kind(res, ref); rec.hit('op:dtype-kind')
+        rec.check(okk, 'op', f'dtype-kind/unary/{o}/{case["L"]["k"]}', f'unary {o} on {case["L"]["k"]}: {whyk}')
         e = invariant(res) or invariant(a)
         rec.check(e is None, 'invariant', f'unary/{o}', f'invariant after unary {o}: {e}')
         ok2, _ = same_values(dense(a), da)
@@ -223,12 +264,18 @@ def run_op(case, rec):
             rec.check(e is None, 'invariant', f'{tag}', f'invariant after {o}: {e}')
         return
     if serr is not None:
-        if isinstance(serr, ZeroDivisionError):
-            rec.refuse('ZeroDivisionError (library-specific, not judged)'); return
+        # (this point is reached only when NumPy returned a finite result, so no element of the divisor is zero: a ZeroDivisionError here is as
+        #  much a defect as any other raise and is reported under exception/ZeroDivisionError@<site>)
+        if isinstance(serr, ZeroDivisionError): rec.hit('op:zerodivision-where-numpy-finite')
         rec.exception(clause, serr, what=f'{o}({lk},{rk}) raised {type(serr).__name__}: {serr} but NumPy computes a result')
         return
     okv, why = same_values(dense(res), ref)
     rec.check(okv, clause, f'value/{tag}', f'{o}({lk},{rk}): {why}')
+    if o not in ('truediv', 'rtruediv', 'itruediv'):
+        # comparisons and logical operators give logical results, arithmetic keeps NumPy's kind (logical / logical is left out: the library keeps the
+        # result logical where NumPy promotes True / True to 1.0; the values are equal and are compared above)
+        okk, whyk = same_kind(res, ref); rec.hit('op:dtype-kind'); rec.hit('op:dtype-kind/' + fam)
+        rec.check(okk, clause, f'dtype-kind/{tag}', f'{o}({lk},{rk}): {whyk}')
     if inplace:
         rec.check(res is a, 'inplace', f'identity/{tag}', f'in-place {o} returned a different object')
     else:
@@ -271,7 +318,7 @@ def run_get(case, rec):
         rec.refuse('empty selection (zero-size result, not judged)'); return
     try: res = a[si]
     except Exception as e:
-        if explicit_refusal(e): rec.refuse('library refuses this index form explicitly'); return
+        # (no index form of the generated domain is refused by the library: every raise where NumPy returns is reported)
         rec.exception('getitem', e, what=f'getitem {case["ix"]} on {case["L"]["k"]} raised but NumPy returns'); return
     okv, why = same_values(dense(res), ref)
     rec.check(okv, 'getitem', f'value/{case["L"]["k"]}/{ix_tag(case["ix"])}', f'getitem {case["ix"]}: {why}')
@@ -328,13 +375,39 @@ def run_set(case, rec):
         # NumPy rejects (shape mismatch): the property demands rejection too
         if case.get('must_reject'):
             e = None
+            # the relation between value and selection is part of the key: a value SHORTER than the vector in v[:] = value is the recorded finding
+            # (the repository's own test relies on it), a LONGER one was repaired and must never be accepted again
+            nsel = int(np.size(da[ni])); nval = int(np.size(dv))
+            rel = 'shorter' if nval < nsel else ('longer' if nval > nsel else 'reshaped')
+            rec.hit(f'reject:setitem/{case["L"]["k"]}/{ix_tag(case["ix"])}/{rel}')
             if serr is None:
-                okv, _ = same_values(dense(a), da)
-                rec.check(False, 'reject', f'setitem-accepted/{tag}',
+                # (only the 'shorter' relation keeps the recorded key prefix; 'longer' / 'reshaped' get a prefix of their own, so that no glob written for the
+                #  recorded prefix assignment can cover them)
+                rec.check(False, 'reject', f'setitem-accepted/{tag}/shorter' if rel == 'shorter' else f'setitem-accepted-{rel}/{tag}',
                           f'setitem {case["ix"]} with value of shape {np.shape(dv)} on shape {da.shape} accepted silently '
                           f'(NumPy: {type(rerr).__name__}); array now {dense(a).tolist()}, invariant: {invariant(a)}')
+                # what an accepted mismatching assignment leaves behind is judged on its own (these keys are not covered by the recorded finding):
+                # the stored-entries invariant, and for the recorded 'shorter' form exactly the documented content (the value, padded with zeros)
+                e = invariant(a)
+                rec.check(e is None, 'invariant', f'setitem-accepted/{tag}/{rel}', f'invariant after an accepted mismatching setitem: {e}')
+                if rel == 'shorter' and da.ndim == 1 and ix_tag(case['ix']) == ':' and np.ndim(dv) == 1:
+                    exp = np.zeros(da.shape, dtype=da.dtype); exp[:nval] = np.asarray(dv).astype(da.dtype)
+                    okv, why = same_values(dense(a), exp)
+                    rec.check(okv, 'reject', f'setitem-shorter-content/{tag}', f'v[:] = <shorter value> (recorded as accepted: the value padded with zeros): {why}')
+                if not alias and isinstance(v, SPARSE + (np.ndarray, list)):
+                    ok3, why3 = same_values(dense(v), dv0)
+                    rec.check(ok3, 'operand-unchanged', f'setitem-accepted-value/{tag}/{rel}', f'accepted mismatching setitem mutated the assigned value: {why3}')
             else:
-                rec.ok('reject')
+                # a rejection is a deliberate ValueError / IndexError that leaves the target as it was
+                if not isinstance(serr, (ValueError, IndexError)):
+                    rec.check(False, 'reject', f'setitem-wrong-type/{tag}/{rel}/{type(serr).__name__}',
+                              f'mismatching setitem {case["ix"]} died with {type(serr).__name__}: {serr} instead of a ValueError / IndexError rejection')
+                else:
+                    rec.ok('reject')
+                okv, why = same_values(dense(a), da)
+                rec.check(okv, 'reject', f'setitem-partial-write/{tag}/{rel}', f'rejected setitem {case["ix"]} left the target changed: {why}')
+                e = invariant(a)
+                rec.check(e is None, 'invariant', f'setitem-rejected/{tag}/{rel}', f'invariant after a rejected setitem: {e}')
                 rec.mark_nontrivial(case_hash(case))
         else:
             rec.refuse('numpy raises on setitem (not judged)')
@@ -343,7 +416,15 @@ def run_set(case, rec):
                 rec.check(e is None, 'invariant', f'setitem/{tag}', f'invariant after setitem: {e}')
         return
     if serr is not None:
-        if explicit_refusal(serr): rec.refuse('library refuses this index/value form explicitly'); return
+        if documented_set_refusal(case['L']['k'], case['ix'], dv, serr):
+            # whitelisted (kind, index form, value class) with the documented exception: counted, and the refused call must leave a valid object
+            rec.refuse(f'documented unsupported assignment {case["L"]["k"]}{ix_tag(case["ix"])} = <{value_class(dv)} value> ({type(serr).__name__}: not judged)')
+            rec.hit(f'refusal:set/{case["L"]["k"]}/{ix_tag(case["ix"])}/{value_class(dv)}')
+            e = invariant(a)
+            rec.check(e is None, 'invariant', f'setitem-refused/{tag}', f'invariant after a refused setitem: {e}')
+            okr, whyr = same_values(dense(a), da)
+            rec.check(okr, 'setitem', f'refused-partial-write/{tag}', f'setitem {case["ix"]} = <{value_class(dv)} value> was refused ({type(serr).__name__}: {serr}) but the target was modified before the raise: {whyr}')
+            return
         rec.exception('setitem', serr, what=f'setitem {case["ix"]} = {case["V"] if not alias else "self"} on {case["L"]["k"]}{list(da.shape)} raised but NumPy accepts')
         return
     okv, why = same_values(dense(a), ref)
@@ -677,6 +758,16 @@ def run_method(case, rec):
     if nontrivial_image(da): rec.mark_nontrivial(case_hash(case))
 
 
+# (container kind, index form) whose selection the library returns as a read-only dense ndarray (documented in sparse(): "indexing columns will return
+# NumPy dense arrays"; measured on the unchanged library: exactly these forms, always ndarray + writeable False + ValueError 'output array is read-only' /
+# 'assignment destination is read-only')
+READONLY_DENSE_FORMS = {('sv', 'slice'), ('sa', '[:,int]'), ('sa', '[int,slice]'), ('sa', '[slice,int]'), ('sa', '[slice,slice]'), ('sa', '[:,slice]'),
+                        ('sa', '[slice,:]'), ('sa', '[:,ilist]'), ('sa', '[ilist,slice]')}
+GETMUT_JUDGED_FORMS = [('sa', 'int'), ('sa', ':'), ('sa', 'slice'), ('sa', '[int,:]'), ('sv', ':'),
+                       ('sa', 'ilist'), ('sa', 'iarr'), ('sa', 'barr'), ('sa', 'barr2'), ('sa', '[ilist,ilist]'), ('sa', '[ilist,int]'),
+                       ('sv', 'ilist'), ('sv', 'iarr'), ('sv', 'blist'), ('sv', 'barr')]
+
+
 def run_getmut(case, rec):
     """get, then write in place to what was got: NumPy returns views for basic indexing and copies for fancy / boolean indexing (added)."""
     a = build(case['L']); da = twin(case['L'])
@@ -686,7 +777,6 @@ def run_getmut(case, rec):
     if not isinstance(sub_ref, np.ndarray) or sub_ref.size == 0: rec.refuse('selection is a scalar or empty (nothing to write to)'); return
     try: sub = a[si]
     except Exception as e:
-        if explicit_refusal(e): rec.refuse('library refuses this index form explicitly'); return
         rec.exception('getitem', e, what=f'getitem {case["ix"]} on {case["L"]["k"]} raised but NumPy returns'); return
     o = case['o']; c = case['c']
     try:
@@ -694,13 +784,27 @@ def run_getmut(case, rec):
         elif o == 'iadd': sub_ref += c
         else: sub_ref[...] = c
     except Exception: rec.refuse('numpy rejects the write'); return
+    k = case['L']['k']; form = ix_tag(case['ix'])
     try:
         if o == 'imul': sub *= c
         elif o == 'iadd': sub += c
         else: sub[:] = c
     except Exception as e:
-        rec.refuse('selection is not writable in the library (read-only dense copy): not judged'); return
-    rec.hit('getmut')
+        # documented: selections that cut through the columns (and slices of a vector) are read-only dense copies.  The refusal is granted only for
+        # the exact conjunction index form x ndarray x not writeable x NumPy's own ValueError; anything else is reported.
+        if (k, form) in READONLY_DENSE_FORMS and type(sub) is np.ndarray and not sub.flags.writeable and type(e) is ValueError and 'read-only' in str(e):
+            rec.refuse(f'selection {k}{form} is a documented read-only dense copy: write not judged'); rec.hit(f'getmut:readonly-dense/{k}/{form}')
+            okr, whyr = same_values(dense(a), twin(case['L']))
+            rec.check(okr, 'operand-unchanged', f'getmut-refused-write/{k}/{form}', f'a refused write to the read-only selection changed the source: {whyr}')
+            return
+        if isinstance(sub, SPARSE):
+            rec.exception('inplace', e, what=f'b = a[{case["ix"]}] is a {type(sub).__name__}; b {o} {c} raised {type(e).__name__}: {e} but NumPy writes to the selection')
+        else:
+            rec.check(False, 'inplace', f'selection-not-writable/{k}/{form}/{type(sub).__name__}/{type(e).__name__}',
+                      f'b = a[{case["ix"]}] is a {type(sub).__name__} (writeable: {getattr(getattr(sub, "flags", None), "writeable", None)}); b {o} {c} raised '
+                      f'{type(e).__name__}: {e}; NumPy returns a writable {"view" if np.shares_memory(sub_ref, da) else "copy"} for this index form')
+        return
+    rec.hit('getmut'); rec.hit(f'getmut:judged/{k}/{form}')
     kind = 'view' if np.shares_memory(sub_ref, da) else 'copy'
     rec.hit('getmut:numpy-' + kind)
     ok, why = same_values(dense(sub), sub_ref)
@@ -714,48 +818,65 @@ def run_getmut(case, rec):
 
 
 def run_reject(case, rec):
-    """operations of the rejection domain R must raise."""
+    """operations of the rejection domain R must raise (ValueError / IndexError) and leave every operand as it was."""
     kind = case['kind']
     tag = case['tag']
-    try:
-        if kind == 'op':
-            a = build(case['L']); b = build(case['R'])
-            fam, o = case['fam'], case['o']
-            da = dense(a).copy()
-            res = TABLES[fam][o](a, b)
-            after = dense(a)
-            rec.check(False, 'reject', f'accepted/{tag}',
-                      f'{o}({case["L"]["k"]}{list(np.shape(da))},{case["R"]["k"]}{list(np.shape(dense(b)))}) shape mismatch accepted; '
-                      f'result shape {np.shape(dense(res))}')
-            return
-        elif kind == 'readonly':
-            a = build(case['L']); a.setflags(0)
-            da = dense(a).copy()
-            what = case['o']
+    a = build(case['L']); da = twin(case['L'])       # (the expectation is the description itself, never to_array() of the object under test)
+    b = db = res = None
+    if kind == 'op':
+        b = build(case['R']); db = twin(case['R'])
+        fn = TABLES[case['fam']][case['o']]; what = case['o']
+        call = lambda: fn(a, b)
+    elif kind == 'readonly':
+        a.setflags(0)
+        what = case['o']
+        if what in ('setitem', 'setitem-slice', 'setitem-fancy', 'setitem-mask') or what in INP or what == 'row-view-iadd': b = build(case['R'])
+        def call():
             if what == 'clear': a.clear()
-            elif what in ('setitem', 'setitem-slice', 'setitem-fancy'): a[mk_index(case['ix'])[0]] = build(case['R'])
-            elif what == 'setitem-mask': a[np.array(case['mask'])] = build(case['R'])
+            elif what in ('setitem', 'setitem-slice', 'setitem-fancy'): a[mk_index(case['ix'])[0]] = b
+            elif what == 'setitem-mask': a[np.array(case['mask'])] = b
             elif what == 'copy_like': a.copy_like(build({'k': case['L']['k'], 'v': (np.array(case['L']['v']) + 1.).tolist()}))
             elif what == 'mix_from': a.mix_from([build({'k': 'sv', 'v': [1.] * len(case['L']['v'])})])
             elif what == 'remove_negatives': a.remove_negatives()
             elif what == 'from_flat_array': a.from_flat_array(np.ones(int(np.size(da))))
             elif what == 'row-view-iadd':
-                row = a[0]; row += build(case['R'])
-            else: TABLES['inp'][what](a, build(case['R']))
-            after = dense(a)
-            changed = not np.array_equal(after, da)
+                row = a[0]; row += b
+            else: TABLES['inp'][what](a, b)
+    else:
+        raise ValueError(kind)
+    # only the operation itself sits inside the try: an exception of the harness's own reporting code can no longer pass for a rejection
+    try:
+        res = call(); err = None
+    except Exception as e:
+        err = e
+    if err is None:
+        if kind == 'op':
+            rec.check(False, 'reject', f'accepted/{tag}',
+                      f'{what}({case["L"]["k"]}{list(np.shape(da))},{case["R"]["k"]}{list(np.shape(db))}) shape mismatch accepted; '
+                      f'result shape {np.shape(dense(res))}')
+        else:
+            changed = not np.array_equal(dense(a), da)
             rec.check(False, 'reject', f'readonly-accepted/{tag}',
                       f'{what} on a read-only {case["L"]["k"]} did not raise (content changed: {changed})')
-            return
-    except (ValueError, IndexError) as e:
-        rec.ok('reject'); rec.mark_nontrivial(case_hash(case))
-        if kind == 'readonly':
-            okv, _ = same_values(dense(a), da)
-            rec.check(okv, 'reject', f'readonly-partial-write/{tag}', 'read-only rejection left the content changed')
-    except Exception as e:
-        # rejected, but through an internal error type: still a rejection; record the type as a refusal note
-        rec.ok('reject'); rec.refuse(f'rejection through {type(e).__name__}')
-        rec.mark_nontrivial(case_hash(case))
+        return
+    # a rejection is a deliberate ValueError / IndexError (NumPy: ValueError) raised BEFORE anything is written.  Another type (RuntimeError
+    # 'dictionary changed size', KeyError, ...) is a guard that fired too late or not at all; in every case the operands must be as before.
+    rec.mark_nontrivial(case_hash(case))
+    if isinstance(err, (ValueError, IndexError)): rec.ok('reject')
+    else:
+        rec.check(False, 'reject', f'wrong-type/{tag}/{type(err).__name__}',
+                  f'{kind} rejection case {tag} died with {type(err).__name__}: {str(err)[:150]} instead of a ValueError / IndexError rejection')
+    rec.hit(f'reject:state-checked/{kind}')
+    okv, why = same_values(dense(a), da)
+    if kind == 'readonly':
+        rec.check(okv, 'reject', f'readonly-partial-write/{tag}', f'read-only rejection left the content changed: {why}')
+    else:
+        rec.check(okv, 'reject', f'partial-write/{tag}', f'rejected {what} (shape mismatch) left the left operand changed: {why}')
+        if isinstance(b, SPARSE + (np.ndarray, list)):
+            okb, whyb = same_values(dense(b), db)
+            rec.check(okb, 'operand-unchanged', f'rejected-right/{tag}', f'rejected {what} changed its right operand: {whyb}')
+    e2 = invariant(a) or (invariant(b) if isinstance(b, SPARSE) else None)
+    rec.check(e2 is None, 'invariant', f'rejected/{tag}', f'invariant after a rejected operation: {e2}')
 
 # ---------------------------------------------------------------------------
 # histories
@@ -807,11 +928,27 @@ def run_history(case, rec):
                 trial = tw.copy()
                 try: trial[ni] = dv
                 except Exception: rec.refuse('history step skipped: numpy rejects'); continue
+                before = tw.copy()
                 tw[ni] = dv.copy() if isinstance(dv, np.ndarray) else dv
-                pool[st['i']][si] = v
+                try:
+                    pool[st['i']][si] = v
+                except IndexError as e:
+                    if not documented_set_refusal(kind_of(pool[st['i']]), st['ix'], dv, e): raise
+                    # whitelisted unsupported form (seen from the inputs): the step did not take place.  The twin is put back and the history goes on,
+                    # so the comparison below also says whether the refused call left the target as it was
+                    tw[...] = before
+                    rec.refuse('history step refused: documented unsupported assignment sa[rowslice, :] = <2-d value> (twin put back, history continues)')
+                    rec.hit('refusal:history-set/[slice,:]/2d-rows>1')
+                    okr, whyr = same_values(dense(pool[st['i']]), tw)
+                    if not okr:
+                        rec.check(False, 'history', f'refused-set-partial-write/{kind_of(pool[st["i"]])}/{ix_tag(st["ix"])}',
+                                  f'after step {n} {st}: the assignment was refused ({type(e).__name__}: {e}) but the target was modified before the raise: {whyr}'); return
             elif t == 'row':  # pool[k] = view of row r of array pool[i]
                 if not isinstance(pool[st['i']], SA) or st['r'] >= len(pool[st['i']].rows): rec.refuse('history step skipped: no such row'); continue
-                pool[st['k']] = pool[st['i']][st['r']]; twins[st['k']] = twins[st['i']][st['r']]
+                row = pool[st['i']][st['r']]
+                if not isinstance(row, (SV, SLV)):       # (documented: indexing rows returns the sparse row; a dense copy would silently stop being a view)
+                    rec.check(False, 'history', f'get-not-sparse/{kind_of(pool[st["i"]])}/int', f'after step {n} {st}: row {st["r"]} of a SparseArray came back as {type(row).__name__} instead of the sparse row view'); return
+                pool[st['k']] = row; twins[st['k']] = twins[st['i']][st['r']]
             elif t == 'copy':
                 pool[st['k']] = pool[st['i']].copy(); twins[st['k']] = twins[st['i']].copy()
             elif t == 'neg':
@@ -880,20 +1017,29 @@ def run_history(case, rec):
                 ref = tw[ni]
                 if not isinstance(ref, np.ndarray) or ref.size == 0: rec.refuse('history step skipped: empty / scalar selection'); continue
                 res = pool[st['i']][si]
-                if not isinstance(res, SPARSE): rec.refuse('history step skipped: selection is a dense copy'); continue
+                if not isinstance(res, SPARSE):
+                    # documented dense (read-only) copy only for a non-open slice of a VECTOR; a row, a row slice or ':' of an array and ':' of a vector
+                    # are sparse views (shared rows / the object itself)
+                    if isinstance(pool[st['i']], (SV, SLV)) and ix_tag(st['ix']) == 'slice' and type(res) is np.ndarray and not res.flags.writeable:
+                        rec.refuse('history step skipped: slice of a vector is a dense read-only copy'); continue
+                    rec.check(False, 'history', f'get-not-sparse/{kind_of(pool[st["i"]])}/{ix_tag(st["ix"])}',
+                              f'after step {n} {st}: basic indexing {st["ix"]} of a {type(pool[st["i"]]).__name__} returned a {type(res).__name__} instead of a sparse view'); return
                 pool[st['k']] = res; twins[st['k']] = ref; rec.hit('history:get')
             else:
                 raise ValueError(t)
         except Corrupt:
             raise
         except Exception as e:
-            if isinstance(e, ZeroDivisionError): rec.refuse('ZeroDivisionError (library-specific, not judged)'); return
-            if explicit_refusal(e): rec.refuse('history ended: library refuses a step explicitly'); return
+            # (every step is executed only after NumPy produced a finite result for it, so a ZeroDivisionError is a defect like any other raise;
+            #  the only whitelisted refusal is handled inside the 'set' step)
             rec.exception('history', e, what=f'history step {n} {st} raised: {type(e).__name__}: {e}'); return
         for idx, (p, tw) in enumerate(zip(pool, twins)):
-            okv, why = same_values(dense(p), tw)
+            dp = dense(p)
+            okv, why = same_values(dp, tw)
             if not okv:
                 rec.check(False, 'history', f'value/after-{t}/{st.get("o", "")}', f'after step {n} {st}: object {idx}: {why}'); return
+            if (dp.dtype == bool) != (tw.dtype == bool):
+                rec.check(False, 'history', f'dtype-kind/after-{t}/{st.get("o", "")}', f'after step {n} {st}: object {idx} is {dp.dtype} but NumPy gives {tw.dtype}'); return
             e = invariant(p)
             if e:
                 rec.check(False, 'invariant', f'history/after-{t}/{st.get("o", "")}', f'after step {n} {st}: object {idx}: {e}'); return
@@ -1227,6 +1373,10 @@ def gen_reject(rng):
     else:
         # slice assignment with a mismatching shape: NumPy raises, so must the sparse array
         tk = rng.choice(['sv', 'sa-rows', 'sv-fancy'])
+        if tk == 'sv' and rng.random() < 0.25:
+            # added: the same mismatch on a logical vector (the property names SparseLogicalVector; only 'sv' targets had been generated)
+            n1, n2 = rng.sample([2, 3, 4, 6], 2)
+            return {'t': 'set', 'L': {'k': 'slv', 'v': bv(rng, n1)}, 'ix': {'t': 'slice'}, 'V': {'k': rng.choice(['blist', 'barr1', 'slv']), 'v': bv(rng, n2)}, 'must_reject': True}
         if tk == 'sv':
             n1, n2 = rng.sample([2, 3, 4, 6], 2)
             return {'t': 'set', 'L': {'k': 'sv', 'v': fv(rng, n1, vals)}, 'ix': {'t': 'slice'}, 'V': {'k': rng.choice(['list', 'arr1', 'sv']), 'v': fv(rng, n2, [1., 2., .5])}, 'must_reject': True}
